@@ -9,7 +9,11 @@ os.makedirs('/tmp/hunt', exist_ok=True)
 if not os.path.exists(wt):
     subprocess.run(['git', '-C', '/repo', 'worktree', 'add', '--detach', wt, 'HEAD'], check=True, stdout=subprocess.DEVNULL, stderr=subprocess.DEVNULL)
 prev = '/tmp/hunt/%s.prev.md' % pid
-shutil.copy(V + '/triage/hunt_%s_NOTES.md' % prop, prev)
+with open(prev, 'w') as f:
+    for n in ('hunt_%s_NOTES.md', 'hunt2_%s_NOTES.md', 'hunt3_%s_NOTES.md'):
+        q = V + '/triage/' + n % prop
+        if os.path.exists(q):
+            f.write('\n\n===== notes of an earlier auditor (%s) =====\n\n' % n.split('_')[0] + open(q).read())
 t = open(V + '/bin/hunt_prompt.tmpl').read() + open(V + '/bin/hunt2_prompt_tail.tmpl').read()
 t = t.replace('__WT__', wt).replace('__PID__', pid).replace('__PROPERTY__', json.dumps(rec, indent=1)).replace('__PREV__', prev)
 t = t.replace('Do NOT read or touch /verif, /repo, or any other /tmp directory.', 'Do NOT read or touch /verif, /repo, or any other /tmp directory (except the notes file named below).')
